@@ -935,8 +935,21 @@ def emit(c):
 
 @register("census")
 def generate():
-    c = extract_all()
-    common.write_if_changed(os.path.join(common.COQ, "Gen", "GenCensus.v"), emit(c))
+    gen = os.path.join(common.COQ, "Gen", "GenCensus.v")
+    try:
+        c = extract_all()
+    except Exception as ex:
+        # never leave a stale census behind: an empty one (no exported manual_seed, no rows) makes the obligations of
+        # Props/C19.v fail (manual_seed_seeds_both, the non-vacuity examples) until the source can be classified again
+        empty = {k: [] for k in ("files", "draws", "set_news", "set_uses", "dicts", "hash_defs", "sorts", "uninits", "visual_imports", "seed_body")}
+        empty["seed_exported"] = False
+        common.write_if_changed(gen, "(* TRANSLATOR FAILED (fail-closed): %s *)\n" % str(ex).replace("*)", "* )").replace("(*", "( *") + emit(empty))
+        try:
+            os.remove(os.path.join(common.ROOT, "work", "census.json"))
+        except FileNotFoundError:
+            pass
+        raise
+    common.write_if_changed(gen, emit(c))
     os.makedirs(os.path.join(common.ROOT, "work"), exist_ok=True)
     json.dump(c, open(os.path.join(common.ROOT, "work", "census.json"), "w"), indent=1)
     return c
